@@ -73,8 +73,12 @@ class Sink(threading.Thread):
 class Collector:
     """one incarnation after the other of the real binary in one working directory"""
 
-    def __init__(self, ctx, binary, workdir, sink_port, workers=4, extra_cfg="", stats_format="restful", producer=True):
+    def __init__(self, ctx, binary, workdir, sink_port, workers=4, extra_cfg="", stats_format="restful", producer=True, relative_cache=False):
+        """relative_cache: the template cache files are named relatively ("ipfix.templates") and the process runs in a directory
+        (cache_dir) that is not the one its configuration file is in"""
         self.ctx, self.binary, self.dir = ctx, binary, workdir
+        self.cache_dir = os.path.join(workdir, "run dir") if relative_cache else workdir
+        os.makedirs(self.cache_dir, exist_ok=True)
         self.stats_format = stats_format
         self.ports = {p: free_port(socket.SOCK_DGRAM) for p in ("ipfix", "netflow9", "netflow5", "sflow")}
         self.stats_port = free_port()
@@ -92,10 +96,10 @@ stats-http-port: "%(stats)d"
 ipfix-rpc-enabled: false
 ipfix-port: %(ipfix)d
 ipfix-workers: %(w)d
-ipfix-tpl-cache-file: %(dir)s/ipfix.templates
+ipfix-tpl-cache-file: %(cdir)sipfix.templates
 netflow9-port: %(netflow9)d
 netflow9-workers: %(w)d
-netflow9-tpl-cache-file: %(dir)s/netflow9.templates
+netflow9-tpl-cache-file: %(cdir)snetflow9.templates
 netflow5-port: %(netflow5)d
 netflow5-workers: %(w)d
 sflow-port: %(sflow)d
@@ -103,7 +107,7 @@ sflow-workers: %(w)d
 producer-enabled: %(producer)s
 mq-name: rawSocket
 mq-config-file: mq.conf
-%(extra)s""" % dict(dir=workdir, stats=self.stats_port, w=workers, extra=extra_cfg, fmt=stats_format, producer="true" if producer else "false", **self.ports)
+%(extra)s""" % dict(dir=workdir, cdir="" if relative_cache else workdir + "/", stats=self.stats_port, w=workers, extra=extra_cfg, fmt=stats_format, producer="true" if producer else "false", **self.ports)
         with open(os.path.join(workdir, "vflow.conf"), "w") as fh:
             fh.write(cfg)
         with open(os.path.join(workdir, "mq.conf"), "w") as fh:
@@ -118,7 +122,7 @@ mq-config-file: mq.conf
         for k in list(env):
             if k.startswith("VFLOW_"):
                 del env[k]
-        self.proc = subprocess.Popen([self.binary, "-config", os.path.join(self.dir, "vflow.conf")], cwd=self.dir,
+        self.proc = subprocess.Popen([self.binary, "-config", os.path.join(self.dir, "vflow.conf")], cwd=self.cache_dir,
                                      stdout=self.stderr, stderr=self.stderr, env=env)
         # ready when the statistics answer and show every protocol
         t0 = time.time()
@@ -163,10 +167,18 @@ mq-config-file: mq.conf
         except OSError:
             return ""
 
-    def stop(self, sig=signal.SIGTERM, wait=10):
-        """returns (exit status, seconds until exit); exit status None = still running after `wait`"""
+    def stop(self, sig=signal.SIGTERM, wait=10, again=None):
+        """returns (exit status, seconds until exit); exit status None = still running after `wait`.
+        again: seconds after which the signal is sent a second time (an impatient operator, a supervisor and a terminal)"""
         t0 = time.time()
         self.proc.send_signal(sig)
+        if again is not None:
+            time.sleep(again)
+            if self.proc.poll() is None:
+                try:
+                    self.proc.send_signal(sig)
+                except ProcessLookupError:
+                    pass
         try:
             rc = self.proc.wait(timeout=wait)
         except subprocess.TimeoutExpired:
